@@ -112,6 +112,14 @@ MUTANTS = {
         ('readdir-ino-not-converted', VS, "                    let new_ino = self.convert_inode(idata.fs_idx(), dir_entry.ino)?;\n                    dir_entry.ino = new_ino;", "                    let new_ino = self.convert_inode(0, dir_entry.ino)?;\n                    dir_entry.ino = new_ino;"),
     ],
     'C08': [
+        ('lookup-no-increment', 'src/passthrough/mod.rs', 'let new = curr.saturating_add(1);', 'let new = curr;'),
+        ('lookup-insert-two-refs', 'src/passthrough/mod.rs', 'Arc::new(InodeData::new(inode, handle, 1, id, st.st.st_mode)),', 'Arc::new(InodeData::new(inode, handle, 2, id, st.st.st_mode)),'),
+        ('lookup-locked-add-two', 'src/passthrough/mod.rs', 'data.refcount.fetch_add(1, Ordering::Relaxed);', 'data.refcount.fetch_add(2, Ordering::Relaxed);'),
+        ('lookup-wrong-found', 'src/passthrough/mod.rs', 'found = Some(data.inode);', 'found = Some(parent);'),
+        ('alloc-forgets-number', 'src/passthrough/mod.rs', 'Ok(InodeMap::get_inode_locked(inodes, id, handle_opt)\n                .unwrap_or_else(|| self.next_inode.fetch_add(1, Ordering::Relaxed)))', 'Ok(self.next_inode.fetch_add(1, Ordering::Relaxed))'),
+        ('unique-ino-shift', 'src/passthrough/util.rs', 'Ok((unique_id as u64) << 47 | inode)', 'Ok((unique_id as u64) << 46 | inode)'),
+        ('readdirplus-forgets-st-ino', 'src/passthrough/sync_io.rs', 'let ino = entry.inode;\n            dir_entry.ino = entry.attr.st_ino;', 'let ino = entry.attr.st_ino;\n            dir_entry.ino = ino;'),
+        ('readdir-forgets-two', 'src/passthrough/sync_io.rs', 'self.forget_one(&mut inodes, entry.inode, 1);', 'self.forget_one(&mut inodes, entry.inode, 2);'),
         ('root-not-exempt', P, "        if inode == fuse::ROOT_ID {\n            return;\n        }\n\n        if let Some(data) = inodes.get(&inode) {", "        if let Some(data) = inodes.get(&inode) {"),
         ('wrapping-sub', P, "let new = curr.saturating_sub(count);", "let new = curr.wrapping_sub(count);"),
         ('remove-at-le-1', P, "                    if new == 0 {\n                        // We just removed", "                    if new <= 1 {\n                        // We just removed"),
@@ -138,6 +146,14 @@ MUTANTS = {
         ('per-mount-index-zero', V, "            .get(fs_idx as usize)\n", "            .get(0usize)\n"),
     ],
     'C16': [
+        ('skip-keeps-match', 'src/passthrough/sync_io.rs', "            cur += target_reclen;\n            buf.drain(..cur);", "            buf.drain(..cur);"),
+        ('dotdot-listed', 'src/passthrough/sync_io.rs', "let res = if name.starts_with(CURRENT_DIR_CSTR) || name.starts_with(PARENT_DIR_CSTR) {", "let res = if name.starts_with(CURRENT_DIR_CSTR) {"),
+        ('ino-as-cookie', 'src/passthrough/sync_io.rs', "                        offset: dirent64.d_off as u64,", "                        offset: dirent64.d_ino,"),
+        ('continue-after-full', 'src/passthrough/sync_io.rs', "                Ok(0) => break,\n                Ok(_) => rem", "                Ok(_) => rem"),
+        ('err-after-entries', 'src/passthrough/sync_io.rs', "Err(e) if rem.len() == orig_rem_len => return Err(e),", "Err(e) => return Err(e),"),
+        ('false-eof-last-of-batch', 'src/passthrough/sync_io.rs', "                        found = true;\n                        if !buf.is_empty() {\n                            break;\n                        }", "                        found = true;\n                        break;"),
+        ('cached-cookie-inexact', 'src/passthrough/sync_io.rs', ".is_some_and(|cookie| cookie == offset)", ".is_some_and(|cookie| cookie <= offset)"),
+        ('seek-off-by-one', 'src/passthrough/sync_io.rs', "libc::lseek64(dir.as_raw_fd(), offset as libc::off64_t, libc::SEEK_SET)", "libc::lseek64(dir.as_raw_fd(), offset as libc::off64_t + 1, libc::SEEK_SET)"),
         ('ok0-after-partial', S, "        if let Some(entry) = entry {\n            cursor.write_all(EntryOut::from(entry).as_slice())?;\n        }\n", "        if let Some(entry) = entry {\n            cursor.write_all(EntryOut::from(entry).as_slice())?;\n            if total_len > 1024 { return Ok(0); }\n        }\n"),
         ('readdir-limit-plus-128', S, "&mut |d, e| add_dirent(&mut cursor, size, d, Some(e)),", "&mut |d, e| add_dirent(&mut cursor, size + 128, d, Some(e)),"),
     ],
